@@ -821,9 +821,258 @@ def publish_stats(res, stats):
 # (b) model vs implementation
 
 
+class Unencodable(Exception):
+    pass
+
+
+class Encoder:
+    """Python values -> integer ids for the Coq model: equal values (==) get equal ids; within numbers, strings and
+    bytes the ids are order-preserving, so that the sequence comparisons of the model (integer order) mean the same."""
+
+    def __init__(self, values):
+        self.strs = sorted(set(v for v in values if isinstance(v, str)))
+        self.byts = sorted(set(v for v in values if isinstance(v, bytes)))
+        tups = []
+        for v in values:
+            if isinstance(v, tuple) and not any(v == t for t in tups):
+                tups.append(v)
+        try:
+            tups.sort()
+            self.tuples_ordered = True
+        except TypeError:
+            tups.sort(key=repr)
+            self.tuples_ordered = False
+        self.tups = tups
+
+    def klass(self, v):
+        if isinstance(v, (bool, int, float)):
+            return 'num'
+        if v is None:
+            return 'none'
+        for t, n in ((str, 'str'), (bytes, 'bytes'), (tuple, 'tuple')):
+            if isinstance(v, t):
+                return n
+        raise Unencodable(repr(v))
+
+    def id(self, v):
+        k = self.klass(v)
+        if k == 'num':
+            x = 2 * v
+            if x != int(x) or abs(x) > 10 ** 6:
+                raise Unencodable(repr(v))
+            return int(x)
+        if k == 'none':
+            return 10000000
+        if k == 'str':
+            return 20000000 + self.strs.index(v)
+        if k == 'bytes':
+            return 30000000 + self.byts.index(v)
+        for i, t in enumerate(self.tups):
+            if t == v:
+                return 40000000 + i
+        raise Unencodable(repr(v))
+
+    def ids(self, vs):
+        return fw.czlist([self.id(v) for v in vs])
+
+    def order_meaningful(self, a, b):
+        """May the model be asked for a < b?  (a != b)"""
+        ka, kb = self.klass(a), self.klass(b)
+        if ka != kb or ka == 'none':
+            return False
+        return ka != 'tuple' or self.tuples_ordered
+
+
+def history_values(h):
+    vals = list(h['init'])
+    for e in h['events']:
+        op, args = e['op'], e['args']
+        if op in ('append', 'appendleft', 'remove', 'count', 'contains'):
+            vals += args[:1]
+        elif op in ('extend', 'extendleft', 'iadd'):
+            vals += list(args[0])
+        elif op == 'setitem':
+            vals += args[1:2]
+        elif op == 'compare':
+            vals += list(args[1])
+        vals += list(e['contents'])
+        r = e['res']
+        if r[0] == 'val':
+            vals.append(r[1])
+        elif r[0] == 'list':
+            vals += list(r[1])
+    return vals
+
+
+COQ_EXN = ('IndexError', 'KeyError', 'ValueError', 'TypeError')
+SEQOP = {'eq': 'OpEq', 'ne': 'OpNe', 'lt': 'OpLt', 'gt': 'OpGt', 'le': 'OpLe', 'ge': 'OpGe'}
+
+
+def is_index(x):
+    return isinstance(x, int) and not isinstance(x, bool)
+
+
+def coq_event(enc, e, before, maxlen):
+    """Coq term of one event, or None when the call is outside the model's vocabulary AND leaves the deque unchanged
+    (wrong-typed arguments, `in`, comparisons of incomparable elements): such calls are dropped from the model run."""
+    op, a = e['op'], e['args']
+    if op == 'append':
+        return 'EOp (OAppend %s)' % fw.cz(enc.id(a[0]))
+    if op == 'appendleft':
+        return 'EOp (OAppendLeft %s)' % fw.cz(enc.id(a[0]))
+    if op == 'extend':
+        return 'EOp (OExtend %s)' % enc.ids(a[0])
+    if op == 'extendleft':
+        return 'EOp (OExtendLeft %s)' % enc.ids(a[0])
+    if op == 'iadd':
+        return 'EOp (OIadd %s)' % enc.ids(a[0])
+    if op in ('pop', 'popleft', 'peek', 'peekleft', 'reverse', 'iter', 'reversed', 'len', 'clear'):
+        return 'EOp %s' % {'pop': 'OPop', 'popleft': 'OPopLeft', 'peek': 'OPeek', 'peekleft': 'OPeekLeft', 'reverse': 'OReverse',
+                          'iter': 'OIter', 'reversed': 'OReversed', 'len': 'OLen', 'clear': 'OClear'}[op]
+    if op == 'getitem':
+        return 'EOp (OGet %s)' % fw.cz(a[0]) if is_index(a[0]) else None
+    if op == 'setitem':
+        return 'EOp (OSet %s %s)' % (fw.cz(a[0]), fw.cz(enc.id(a[1]))) if is_index(a[0]) else None
+    if op == 'delitem':
+        return 'EOp (ODel %s)' % fw.cz(a[0]) if is_index(a[0]) else None
+    if op == 'rotate':
+        return 'EOp (ORotate %s)' % fw.cz(a[0]) if is_index(a[0]) else None
+    if op == 'remove':
+        return 'EOp (ORemove %s)' % fw.cz(enc.id(a[0]))
+    if op == 'count':
+        return 'EOp (OCount %s)' % fw.cz(enc.id(a[0]))
+    if op == 'compare':
+        name, that = a[0], list(a[1])
+        if name not in ('eq', 'ne'):
+            for x, y in zip(before, that):
+                if x != y:
+                    if not enc.order_meaningful(x, y):
+                        return None
+                    break
+        return 'EOp (OCompare %s %s)' % (SEQOP[name], enc.ids(that))
+    if op == 'set_maxlen':
+        if is_index(a[0]) and a[0] >= 0:
+            return 'EOp (OSetMaxlen %d%%nat)' % a[0]
+        return None
+    if op == 'reopen':
+        return 'EReopen %s' % fw.copt(maxlen)
+    if op == 'copy':
+        return 'ECopy'
+    if op == 'pickle':
+        return 'EPickle'
+    return None
+
+
+def coq_res(enc, r):
+    k = r[0]
+    if k == 'none':
+        return 'RNone'
+    if k == 'val':
+        return '(RVal %s)' % fw.cz(enc.id(r[1]))
+    if k == 'int':
+        return '(RInt %s)' % fw.cz(r[1])
+    if k == 'bool':
+        return '(RBool %s)' % fw.cbool(r[1])
+    if k == 'list':
+        return '(RList %s)' % enc.ids(r[1])
+    if k == 'raise' and r[1] in COQ_EXN:
+        return '(RRaise %s)' % r[1]
+    raise Unencodable(repr(r))
+
+
+def coq_history(h, upto=None):
+    """(check term, number of calls kept, indices of the kept events) or None if the history cannot be expressed in the
+    model.  upto: only the first `upto` kept calls."""
+    try:
+        enc = Encoder(history_values(h))
+        maxlen = h['maxlen']
+        if maxlen is not None and not (is_index(maxlen) and maxlen >= 0):
+            return None
+        events, exp_model, exp_spec, kept = [], [], [], []
+        before = list(collections.deque(h['init'], maxlen=maxlen))
+        for idx, e in enumerate(h['events']):
+            if upto is not None and len(events) >= upto:
+                break
+            t = coq_event(enc, e, before, maxlen)
+            if t is None:
+                # dropped: only sound if the call left the deque as it was
+                if not same_typed_list(list(e['contents']), before):
+                    return None
+                continue
+            if e['op'] == 'set_maxlen':
+                maxlen = e['args'][0]
+            events.append(t)
+            kept.append(idx)
+            r = coq_res(enc, e['res'])
+            exp_model.append('(%s, %s, %s)' % (r, enc.ids(e['contents']), fw.czlist(e['keys'])))
+            exp_spec.append('(%s, %s)' % (r, enc.ids(e['contents'])))
+            before = list(e['contents'])
+        m0 = h['maxlen']
+        term = 'dq_check %s %s %s %s && ldq_check %s %s %s %s' % (
+            fw.copt(m0), enc.ids(h['init']), fw.clist(events), fw.clist(exp_model),
+            'None' if m0 is None else '(Some %d%%nat)' % m0, enc.ids(h['init']), fw.clist(events), fw.clist(exp_spec))
+        return term, len(events), kept
+    except Unencodable:
+        return None
+
+
+def history_case(h, upto=None):
+    evs = h['events'] if upto is None else h['events'][:upto]
+    return {'check': 'deque_model', 'kind': h['kind'], 'maxlen': repr(h['maxlen']), 'init': [repr(v) for v in h['init']],
+            'ops': [[e['op'], [repr(x) for x in e['args']]] for e in evs],
+            'impl_results': [repr(e['res']) for e in evs], 'impl_contents': [repr(e['contents']) for e in evs][-3:]}
+
+
+COQ_IMPORTS = ['DCPrelude', 'PersistentBase', 'Gen_Persistent', 'QCache', 'Deque']
+
+
 def correspondence(ctx, res, histories, limit):
-    """model vs implementation; filled in by the Coq side."""
-    return
+    """Model vs implementation: every history is run through the Coq model of Deque (model/Deque.v, which calls the
+    definitions generated from persistent.py) and through the list specification; results, contents and the integer queue
+    keys after every call must equal what the implementation produced.  `limit` bounds the number of calls shipped to Coq."""
+    chosen, total, skipped = [], 0, 0
+    order = list(range(len(histories)))
+    ctx.rng.shuffle(order)
+    for i in order:
+        h = histories[i]
+        if not h['events']:
+            continue
+        t = coq_history(h)
+        if t is None:
+            skipped += 1
+            continue
+        if total + t[1] > limit and chosen:
+            break
+        chosen.append((h, t[0]))
+        total += t[1]
+    res.extra['model_histories'] = len(chosen)
+    res.extra['model_calls'] = total
+    res.extra['model_histories_not_expressible'] = skipped
+    if not chosen:
+        return
+    checks = [t for _, t in chosen]
+    bad, errors = fw.coq_mismatches('c11', COQ_IMPORTS, '', checks, chunk=60)
+    res.traces_validated += len(checks) - len(bad)
+    for e in errors:
+        res.disagreements.append(fw.Violation('model-eval', 'model evaluation failed: ' + e[-400:], {}, 'correspondence'))
+    for i in bad[:3]:
+        h, term = chosen[i]
+        # which call?  check every prefix of the history
+        n = coq_history(h)[1]
+        prefixes = [coq_history(h, k) for k in range(1, n + 1)]
+        bad2, _ = fw.coq_mismatches('c11p', COQ_IMPORTS, '', [p[0] for p in prefixes], chunk=60)
+        upto = None
+        where = ''
+        if bad2:
+            first = prefixes[min(bad2)]
+            upto = first[2][-1] + 1
+            e = h['events'][upto - 1]
+            where = ': first disagreement at call %d, %s(%s) -> implementation %r, contents %r' % (
+                upto, e['op'], ', '.join(repr(x) for x in e['args']), e['res'], e['contents'])
+        res.disagreements.append(fw.Violation(
+            'deque_model', 'the Coq model of Deque (or the list specification) disagrees with diskcache.Deque' + where,
+            history_case(h, upto), 'correspondence'))
+    res.sample({'model_check_example': checks[0][:300]})
 
 
 # ---------------------------------------------------------------------------
@@ -1043,7 +1292,7 @@ def run(ctx):
     histories = []
     sequential(ctx, res, 250 if ctx.quick else 2500, stats, histories)
     publish_stats(res, stats)
-    correspondence(ctx, res, histories, 1500 if ctx.quick else 6000)
+    correspondence(ctx, res, histories, 7000 if ctx.quick else 30000)
     concurrent(ctx, res, 40 if ctx.quick else 400)
     return res
 
